@@ -69,6 +69,8 @@ def corruptions(seed, big):
         out.append((f"join@{k}", "".join(lines[:k] + [lines[k].rstrip("\n") + " " + lines[k + 1].lstrip()] + lines[k + 2:]).encode()))
     for k in (2, 10, len(lines) - 1):
         out.append((f"undecodable@{k}", "".join(lines[:k]).encode() + b"  ! \xff\xfe\xfa bytes\n" + "".join(lines[k:]).encode()))
+    # a complete, correct module followed by a second program unit on which the parser raises: nothing of the file may stay behind
+    out.append(("complete-unit-then-raise", (VICTIM + "\nmodule broken_tail\n  & integer :: x\nend module broken_tail\n").encode()))
     for name, text in MALFORMED.items():
         out.append((f"malformed:{name}", text.encode()))
     return out
@@ -205,7 +207,8 @@ def pipeline_traces(ck, dev, cor, big, seed):
     jobs = [("valid", dict(VALID), {}), ("layered", dict(LAYERED), {}), ("layered-private", dict(LAYERED), {"display": ["public", "private"], "proc_internals": True}),
             ("layered+valid", dict(VALID, **LAYERED), {"incl_src": True})]
     step = 3 if big else 9
-    for i in range(seed % step, len(cor), step):
+    always = [i for i, (lab, _) in enumerate(cor) if lab.startswith(("undecodable", "complete-unit"))]
+    for i in sorted(set(range(seed % step, len(cor), step)) | set(always)):
         label, data = cor[i]
         pos = list(POSITIONS.values())[i % 3]
         jobs.append((f"{label}@{pos}", dict(VALID, **{pos: data}), {}))
@@ -221,9 +224,14 @@ def pipeline_traces(ck, dev, cor, big, seed):
         if r.get("hang"):
             ck.violation("hang", {"run": r["name"]}, detail=f"whole run '{r['name']}': FORD did not terminate within {2 * WATCHDOG}s")
     recs = [r for r in recs if not r.get("hang")]
+    for r in recs:
+        if not r["ok"] and r["name"] not in ("repo-example",):
+            # a project with valid files must be documented whatever the extra file looks like: the run may not abort
+            ck.violation("abort", {"run": r["name"]}, detail=f"whole run '{r['name']}' aborted: {r['log'][-300:]!r}")
     with ThreadPoolExecutor(max_workers=12) as ex:
         verdicts = list(ex.map(lambda r: pipebind.validate(r["events"], dev), recs))
     nev = 0
+    drift = []
     for r, v in zip(recs, verdicts):
         nev += v["events"]
         if v["accepted"]:
@@ -234,11 +242,17 @@ def pipeline_traces(ck, dev, cor, big, seed):
             # a page name handed out differently from the model in a run with a rejected file: the file's names were taken (Containment)
             ck.violation("pipeline-trace", {"run": r["name"]}, observed=v["next_event"], detail=detail)
         else:
-            raise tlc.TLCFailure(detail + " - not a C20 clause: the as-built stage model of spec/Pipeline.tla no longer describes the code"
-                                 + (f" (clause owned by {v['owner']})" if v["owner"] else ""))
+            drift.append(detail + " - not a C20 clause: the as-built stage model of spec/Pipeline.tla no longer describes the code"
+                         + (f" (clause owned by {v['owner']})" if v["owner"] else ""))
+    if drift and not ck.violations:
+        raise tlc.TLCFailure(drift[0])          # no C20 clause failed, yet the stage model does not describe the code: machinery
+    if drift:
+        ck.notes["pipeline_model_drift"] = drift[:3]
     # the trace spec binds: corrupted records of an accepted run are rejected
     good = next((r for r, v in zip(recs, verdicts) if v["accepted"] and r["name"] == "layered"), None)
     if good is None:
+        if ck.violations:
+            return              # violations have been reported; the self-test of the trace spec needs an accepted run
         raise tlc.TLCFailure("Pipeline_Trace: the layered reference run was not accepted")
     corrupted = []
     for mode in range(6):
